@@ -46,7 +46,7 @@ class Gen:
         r = self.rnd
         m, n = shape
         dt = self.dt(cplx)
-        opts = ["Dense", "Dense"]
+        opts = ["Dense", "Dense", "Dense"]
         if "Tri" in self.kinds and m == n:
             opts.append("Tri")
         if "Sparse" in self.kinds:
@@ -105,9 +105,26 @@ class Gen:
             opts += [k for k in ("Kron", "BDiag", "Kron", "BDiag") if k in self.kinds]
             if "KronSum" in self.kinds:
                 opts.append("KronSum")
+        if not free:   # structured kinds that fit a prescribed shape
+            if "Kron" in self.kinds and (m > 1 or n > 1):
+                opts.append("KronFit")
+            if "KronSum" in self.kinds and m == n and m > 1 and any(m % a == 0 for a in range(2, m)):
+                opts.append("KronSumFit")
+            if "BDiag" in self.kinds and m > 1 and n > 1:
+                opts.append("BDiagFit")
         opts.append("leaf")
         k = r.choice(opts)
         d = depth - 1
+        if k == "KronFit":
+            m1 = r.choice([a for a in range(1, m + 1) if m % a == 0])
+            n1 = r.choice([a for a in range(1, n + 1) if n % a == 0])
+            return dict(k="Kron", ms=[self.tree(d, (m1, n1), cplx), self.tree(d, (m // m1, n // n1), cplx)])
+        if k == "KronSumFit":
+            a = r.choice([a for a in range(2, m) if m % a == 0])
+            return dict(k="KronSum", ms=[self.tree(d, (a, a), cplx), self.tree(d, (m // a, m // a), cplx)])
+        if k == "BDiagFit":
+            m1, n1 = r.randint(1, m - 1), r.randint(1, n - 1)
+            return dict(k="BDiag", ms=[self.tree(d, (m1, n1), cplx), self.tree(d, (m - m1, n - n1), cplx)], mu=[1, 1])
         if k == "leaf":
             return self.leaf(shape, cplx)
         if k == "Sum":
